@@ -220,6 +220,41 @@ Proof.
     apply enum_exact; [rewrite E; discriminate | exact He].
 Qed.
 
+(* ---------- the generated parameter reference (.rst) ---------- *)
+Lemma rst_sound t sch :
+  rst_ok t sch = true ->
+  forall s p, In s sch -> find_name (s_name s) t = Some p -> consistent t p = true -> rst_match p s = true.
+Proof.
+  unfold rst_ok. rewrite forallb_forall. intros H s p Hs Hf Hc.
+  specialize (H s Hs). unfold entry_ok in H. rewrite Hf, Hc in H. exact H.
+Qed.
+
+Lemma rst_match_parts p s :
+  rst_match p s = true -> f_type p s = true /\ f_pref p s = true /\ f_min p s = true /\ f_max p s = true /\ f_default p s = true.
+Proof. unfold rst_match. rewrite !andb_true_iff. tauto. Qed.
+
+Lemma rst_match_meaning p s :
+  rst_match p s = true ->
+  s_type s = p_jtype p /\ s_units s = p_pref p /\
+  (p_kind p = KFloat -> exists a b, s_min s = Some a /\ a == p_min p /\ s_max s = Some b /\ b == p_max p).
+Proof.
+  intros H. destruct (rst_match_parts _ _ H) as [Ht [Hu [Hmin [Hmax _]]]].
+  unfold f_type in Ht. apply andb_true_iff in Ht. destruct Ht as [Ht _]. apply String.eqb_eq in Ht.
+  unfold f_pref in Hu. apply String.eqb_eq in Hu. repeat split; auto.
+  intros Hk. unfold f_min, f_max, lo_bound, hi_bound in *. rewrite Hk in *.
+  destruct (oQ_eqb_Some _ _ Hmin) as [a [Ha Ea]]. destruct (oQ_eqb_Some _ _ Hmax) as [b [Hb Eb]]. exists a, b. auto.
+Qed.
+
+(* the Min / Max columns are the range the reader enforces, for every value *)
+Lemma rst_enforced_float p s :
+  p_kind p = KFloat -> rst_match p s = true -> forall v, schema_allows s v = in_domain p v.
+Proof.
+  intros Hk H v. destruct (rst_match_meaning _ _ H) as [_ [_ Hb]]. destruct (Hb Hk) as [a [b [Ha [Ea [Hb' Eb]]]]].
+  destruct (rst_match_parts _ _ H) as [Ht _].
+  unfold schema_allows, in_domain. rewrite (number_type _ _ Hk Ht), Hk, Ha, Hb'. cbn.
+  rewrite (Qleb_compat a (p_min p) v v Ea (Qeq_refl v)), (Qleb_compat v v b (p_max p) (Qeq_refl v) Eb). reflexivity.
+Qed.
+
 (* ---------- array parameters read through ReadParameter ---------- *)
 Lemma list_bounds p s :
   p_kind p = KList -> fields_match p s = true ->
@@ -306,6 +341,22 @@ Proof.
   unfold result_fields_ok. rewrite forallb_forall. intros H c n d Hin. specialize (H _ Hin). cbn in H.
   apply existsb_exists in H. destruct H as [[c' n'] [Hx E]]. cbn in E. apply andb_true_iff in E. destruct E as [E1 E2].
   apply String.eqb_eq in E1. apply String.eqb_eq in E2. subst. exact Hx.
+Qed.
+
+Lemma pair_in_In l c n : pair_in l c n = true <-> In (c, n) l.
+Proof.
+  unfold pair_in. rewrite existsb_exists. split.
+  - intros [[c' n'] [Hx E]]. cbn in E. apply andb_true_iff in E. destruct E as [E1 E2].
+    apply String.eqb_eq in E1. apply String.eqb_eq in E2. subst. exact Hx.
+  - intros H. exists (c, n). split; [exact H|]. cbn. now rewrite !String.eqb_refl.
+Qed.
+
+Lemma report_sound sch printed extracted :
+  report_ok sch printed extracted = true ->
+  forall c n d, In (c, n, d) sch -> In (c, n) printed -> In (c, n) extracted.
+Proof.
+  unfold report_ok. rewrite forallb_forall. intros H c n d Hs Hp. specialize (H _ Hs). cbn in H.
+  apply pair_in_In in Hp. rewrite Hp in H. cbn in H. apply pair_in_In. exact H.
 Qed.
 
 (* ---------- the pinned tree ---------- *)
